@@ -953,7 +953,7 @@ def forge(tag, how, w, cid):
     if how == "id-garbage":
         # something that is no hex digit between the id and the separator (not in front of the id: a sign, blanks
         # or "0x" there are read as part of the number by a lenient parser - rule 3, as for "id-extend")
-        g = ["zz", "..", "+", " ", "x", "g", "-"][(len(a) + len(b) + (cid or 0)) % 7]
+        g = ["zz", "..", "+", "~", "x", "g", "-"][(len(a) + len(b) + (cid or 0)) % 7]     # (no blank: it would end the token)
         return a + g + "_" + b
     if how == "otherid":
         others = [c for c in sorted(w.live) if c != cid]
